@@ -70,6 +70,17 @@ def c19_a(ctx: Ctx):
                 e2, _ = ctx.effects.transitive(tg)
                 if any(x.kind in common.MUTATING_KINDS for x in e2) or (isinstance(c.func, ast.Attribute) and c.func.attr == "write"):
                     out.append(ctx.viol(R, f, c, f"{canon(c)[:50]} runs for existing projects too: init_project is not idempotent"))
+    wr = [c for c in body_nodes(f) if isinstance(c, ast.Call) and isinstance(c.func, ast.Attribute) and c.func.attr == "write" and isinstance(c.func.value, ast.Name)]
+    for c in wr:
+        d = common.reaching_def(ctx, f, c.func.value.id, c)
+        k = IP + "|config-read-modify-write"
+        if d is not None and isinstance(d, ast.Call) and "signac._config:_read_config_file" in common.targets_of(ctx, f, d):
+            out.append(ctx.ok(R, f, c, "the new configuration is what is on disk plus the schema version (read-modify-write)", construct=k))
+        elif d is not None:
+            out.append(ctx.viol(R, f, c, f"the configuration written by init_project is built from scratch ({canon(d)[:50]}), not read from the file: whatever another process (or an earlier, "
+                                "interrupted init) put into the configuration between the existence test and this write is reset", construct=k))
+        else:
+            out.append(ctx.inc(R, f, c, "origin of the written configuration not determined", construct=k))
     for e in ctx.effects.direct(f):
         if e.kind in common.MUTATING_KINDS:
             inh = any(common.in_body_of(ctx, f, e.node, h, ("body",)) for h in tr.handlers)
